@@ -202,3 +202,55 @@ Example C07_sys_applies :
   | None => False
   end.
 Proof. vm_compute. repeat split; reflexivity. Qed.
+
+(* ====================== server side, appended by builder sv (round 8; cw's theorems above are untouched) ======================
+   Proofs/ServerResetC.v: cw's C07_reset_cancels / C07_handler_unblocks composed with sv's closed system (Proofs/ServerClosed.v). *)
+From Goat Require Proofs.ServerProofs Proofs.ServerInv Proofs.ServerLive Proofs.ServerTerm Proofs.ServerClosed Proofs.ServerResetC.
+
+(* handler cancellation WITHOUT "the server has read everything": in every reachable state in which the read loop is in
+   rw.Read and the next envelope is a reset for a registered stream id (handler h), taking it is enabled, and in EVERY
+   later state - any continuation: more traffic, faults, any interleaving, the rest of the inbox unread or not - handler
+   h's context is done; wherever the connection is then at rest h is parked in no operation (its RecvMsg / SendMsg /
+   <-ctx.Done() have returned), and wherever the closed system stops ([final]: handlers that honour their context have
+   returned from their bodies) h has returned. *)
+Theorem C07_server_reset_cancels : forall ls (s : Server.state) f rest h,
+  Server.lrun Server.init ls = Some s ->
+  Server.rd s = Server.RdRead -> Server.inbox s = f :: rest -> Server.dispatch f = Server.DStream ->
+  Server.is_rst f = true -> Server.find_reg (Server.fid f) (Server.hs s) 0 = Some h ->
+  exists s1, Server.r_rd_read s = Some s1 /\
+    forall ls' s', Server.lrun s1 ls' = Some s' ->
+      exists k, nth_error (Server.hs s') h = Some k /\ Server.hdone s' k = true
+                /\ (Server.quiescent s' = true -> Server.h_blocked k = false)
+                /\ (ServerClosed.final s' = true -> Server.h_returned k = true).
+Proof. intros ls s f rest h _. exact (ServerResetC.srv_reset_cancels s f rest h). Qed.
+Print Assumptions C07_server_reset_cancels.
+
+(* finding D-07r (reset behind back-pressure) as a witness: "a reset DELIVERED to the server cancels the handler" is
+   false. Stream 1's handler never reads; two messages arrive - one queued, the read loop parks on the second -; the
+   reset for stream 1 arrives behind them: the state is at rest (even final: no closed step is enabled), the reset is
+   in the transport unread, the handler's context is NOT done. Only a reset TAKEN cancels (theorem above). *)
+Definition sv7_frame (id : Z) (b : option Z) (rst : bool) : Server.frame :=
+  Server.mkFrame (mkEnv id (Some (MdOk 0)) None b None rst) (Server.MStream 3) 2 1.
+Definition sv7_state (acts : list Server.act) : Server.state :=
+  match Server.lrun Server.init (ServerLive.labels_of acts) with Some s => s | None => Server.init end.
+Definition sv7_closed_end (s : Server.state) : Server.state :=
+  match ServerClosed.crun s (ServerClosed.closed_labels 200 s) with Some s' => s' | None => s end.
+Definition sv7_behind : list Server.act :=
+  [ Server.ADeliver (sv7_frame 1 None false); Server.ADeliver (sv7_frame 1 (Some 21) false);
+    Server.ADeliver (sv7_frame 1 (Some 22) false); Server.ADeliver (sv7_frame 1 None true) ].
+Example C07_server_reset_behind_backpressure_refuted :
+  exists s k, Server.lrun Server.init (ServerLive.labels_of sv7_behind) = Some s /\ ServerClosed.final s = true
+    /\ Server.inbox s = [sv7_frame 1 None true] /\ (exists f, Server.rd s = Server.RdFwd 0 f)
+    /\ nth_error (Server.hs s) 0 = Some k /\ Server.hdone s k = false /\ Server.h_reg k = true.
+Proof. exists (sv7_state sv7_behind). eexists. vm_compute. repeat split. eexists; reflexivity. Qed.
+
+(* non-vacuity of C07_server_reset_cancels: the handler parked in RecvMsg, the reset taken: its context is done, RecvMsg
+   has returned, and the closed system ends with the handler returned and unregistered *)
+Definition sv7_taken : list Server.act :=
+  [ Server.ADeliver (sv7_frame 1 None false); Server.AHandlerStep 0 Server.HRecv; Server.ADeliver (sv7_frame 1 None true) ].
+Example C07_server_reset_cancels_ex :
+  exists s s' k k', Server.lrun Server.init (ServerLive.labels_of sv7_taken) = Some s /\ Server.quiescent s = true
+    /\ nth_error (Server.hs s) 0 = Some k /\ Server.hdone s k = true /\ Server.h_blocked k = false /\ Server.h_returned k = false
+    /\ ServerClosed.crun s (ServerClosed.closed_labels 200 s) = Some s' /\ ServerClosed.final s' = true
+    /\ nth_error (Server.hs s') 0 = Some k' /\ Server.h_returned k' = true /\ Server.registry_size s' = 0%nat.
+Proof. exists (sv7_state sv7_taken), (sv7_closed_end (sv7_state sv7_taken)). eexists. eexists. vm_compute. repeat split. Qed.
